@@ -1,4 +1,4 @@
-import IrVerif.Lemmas.SerdeMutual
+import IrVerif.Lemmas.SerdeClosed
 /-! C02 stage B: functions and models. -/
 namespace IrVerif.Serde
 open IrVerif.Proto
@@ -878,6 +878,24 @@ theorem model_rt (m : ModelP) (h : wfModel m = true) :
       · omega
       · exact h10
     obtain ⟨fs', e1, e2, e3⟩ := fns_experimental m.irVersion m.graph.valueInfo hV m.functions fs hf hvis f4
+    -- D320: no reserved name (a name of the main graph's table) has the experimental form
+    have hRes : ∀ r ∈ reservedNames (g.setOpsets (opsetDict m.opsetImport)), parseExperimentalName r = none := by
+      intro r hr
+      have hsub := reservedNames_subset _ r hr
+      have htn : tableNames (g.setOpsets (opsetDict m.opsetImport)).table = tableNames g.table := by
+        cases g; rfl
+      rw [htn, desGraph_table_names [] m.graph g hg g1] at hsub
+      have hexp' := _hexp
+      simp only [Bool.or_eq_true, decide_eq_true_eq] at hexp'
+      rcases hexp' with h10 | hall
+      · omega
+      · have := List.all_eq_true.1 hall r hsub
+        simpa using this
+    have eR : fs'.flatMap (serExperimentalR (reservedNames (g.setOpsets (opsetDict m.opsetImport))))
+        = fs'.flatMap serExperimental := by
+      apply flatMap_congr'
+      intro f _
+      exact serExperimentalR_eq _ hRes f
     refine ⟨{ graph := g.setOpsets (opsetDict m.opsetImport),
               irVersion := m.irVersion, producerName := m.producerName,
               producerVersion := m.producerVersion, domain := m.domain, modelVersion := m.modelVersion,
@@ -885,6 +903,6 @@ theorem model_rt (m : ModelP) (h : wfModel m = true) :
               configs := m.configuration.map desModelCfg }, ?_, ?_⟩
     · simp only [desModel, g1, f1, hdict, hlt, if_true, e1, bind, Except.bind]
     · simp only [serModel, serGraph_opsets, g2, e2 hlt, hgops, hcfg, hc, if_false, bind, Except.bind,
-        normModel, normEntries, e3, decide_false]
+        normModel, normEntries, eR, e3, decide_false]
 
 end IrVerif.Serde
